@@ -345,7 +345,7 @@ Section RenderPerm.
     - cbn [render]. apply stmt_loop_rel; assumption.
     - cbn [render]. apply rrel_bind with (R := RD); [apply dict_pass1_rel; assumption|].
       intros [ta es] [ta' es'] [Ha He]. cbn [fst snd] in *. cbv zeta.
-      rewrite !isort_by_length, (Forall2_length He).
+      rewrite !isort_by_length, (Forall2_len _ _ _ He).
       apply dict_pass2_rel; [apply isort_by_erel; exact He | exact Ha].
     - cbn [render rrel RT fst snd]. split; [exact Ht | reflexivity].
     - cbn [render rrel RT fst snd]. split; [exact Ht | reflexivity].
@@ -391,7 +391,10 @@ Lemma file_cfg_ceq f f' : file_eqv f f' -> ceq (file_cfg f) (file_cfg f').
 Proof. intros []. split; [assumption|]. split; assumption. Qed.
 
 Lemma file_head_eqv f f' : file_eqv f f' -> file_head f = file_head f'.
-Proof. intros []. unfold file_head. congruence. Qed.
+Proof.
+  intros He. unfold file_head.
+  rewrite (fe_headers _ _ He), (fe_comments _ _ He), (fe_name _ _ He), (fe_canonical _ _ He). reflexivity.
+Qed.
 
 (* File.Render up to the formatter: same source text, related tables; or the same panic *)
 Theorem file_raw_rel f f' : file_eqv f f' -> rrel RT (file_raw f) (file_raw f').
@@ -542,4 +545,69 @@ Theorem file_render_function fmt fmt' wfail wfail' f :
 Proof.
   intros Hf Hw. unfold file_render. destruct (file_raw f) as [[t raw]|m]; [|reflexivity].
   unfold emit. rewrite Hf, Hw. reflexivity.
+Qed.
+
+(* ------------------------------------------------------------------ the statements of Props/C07_file.v *)
+(* spelled out without the auxiliary relations *)
+Theorem file_raw_perm f h' t' :
+  NoDup (akeys (f_hints f)) -> Permutation (f_hints f) h' ->
+  NoDup (akeys (f_imports f)) -> Permutation (f_imports f) t' ->
+  match file_raw f, file_raw (set_hints (set_imports f t') h') with
+  | Ok (t1, raw), Ok (t1', raw') => raw = raw' /\ NoDup (akeys t1) /\ Permutation t1 t1'
+  | Panic m, Panic m' => m = m'
+  | _, _ => False
+  end.
+Proof.
+  intros H1 H2 H3 H4.
+  pose proof (file_raw_rel f _ (file_eqv_set f h' t' (conj H1 H2) (conj H3 H4))) as Hr.
+  destruct (file_raw f) as [[t1 raw]|m], (file_raw (set_hints (set_imports f t') h')) as [[t1' raw']|m'];
+    cbn [rrel] in Hr; try contradiction; [|exact Hr].
+  destruct Hr as [[Ha Hb] Hs]. cbn [fst snd] in *. auto.
+Qed.
+
+Theorem file_render_perm_explicit fmt wfail f h' t' :
+  NoDup (akeys (f_hints f)) -> Permutation (f_hints f) h' ->
+  NoDup (akeys (f_imports f)) -> Permutation (f_imports f) t' ->
+  let f' := set_hints (set_imports f t') h' in
+  snd (file_render fmt wfail f) = snd (file_render fmt wfail f') /\
+  file_eqv (fst (file_render fmt wfail f)) (fst (file_render fmt wfail f')).
+Proof.
+  intros H1 H2 H3 H4 f'. apply file_render_perm, file_eqv_set; split; assumption.
+Qed.
+
+(* ImportNames(m) followed by Render: the bytes do not depend on the order in which the
+   argument map was traversed *)
+Theorem import_names_render_perm fmt wfail f m m' :
+  NoDup (akeys (f_hints f)) -> NoDup (akeys (f_imports f)) ->
+  NoDup (map fst m) -> Permutation m m' ->
+  snd (file_render fmt wfail (import_names f m)) = snd (file_render fmt wfail (import_names f m')).
+Proof.
+  intros Hh Hi Hnd Hp. apply file_render_perm, import_names_eqv; assumption.
+Qed.
+
+Theorem anon_render_perm fmt wfail f paths paths' :
+  NoDup (akeys (f_hints f)) -> NoDup (akeys (f_imports f)) ->
+  Permutation paths paths' ->
+  snd (file_render fmt wfail (anon f paths)) = snd (file_render fmt wfail (anon f paths')).
+Proof.
+  intros Hh Hi Hp. apply file_render_perm, anon_eqv; assumption.
+Qed.
+
+Theorem render_perm_explicit cfg h' c ctx t t' :
+  NoDup (akeys (cfg_hints cfg)) -> Permutation (cfg_hints cfg) h' ->
+  NoDup (akeys t) -> Permutation t t' ->
+  match render cfg ctx t c, render (mkcfg (cfg_path cfg) (cfg_prefix cfg) h') ctx t' c with
+  | Ok (t1, s), Ok (t1', s') => s = s' /\ NoDup (akeys t1) /\ Permutation t1 t1'
+  | Panic m, Panic m' => m = m'
+  | _, _ => False
+  end.
+Proof.
+  intros H1 H2 H3 H4.
+  assert (Hc : ceq cfg (mkcfg (cfg_path cfg) (cfg_prefix cfg) h')).
+  { split; [reflexivity|]. split; [reflexivity|]. split; assumption. }
+  pose proof (render_rel _ _ Hc c ctx t t' (conj H3 H4)) as Hr.
+  destruct (render cfg ctx t c) as [[t1 s]|m],
+           (render (mkcfg (cfg_path cfg) (cfg_prefix cfg) h') ctx t' c) as [[t1' s']|m'];
+    cbn [rrel] in Hr; try contradiction; [|exact Hr].
+  destruct Hr as [[Ha Hb] Hs]. cbn [fst snd] in *. auto.
 Qed.
